@@ -35,7 +35,12 @@ void harness(void)
 	char *chr[LL + 2];
 	int n, i, k, len, *pos, total, seen = 0, col;
 	dir_init();
+	#ifdef RTLCTX
+	/* left-to-right runs with tabs and wide characters inside a right-to-left line */
+	len = slots_text(s, "ln", LL, SL_ASCII | SL_TAB | SL_3B, "a", &n);
+#else
 	len = slots_text(s, "ln", LL, CLS, ORDER ? "a " : NULL, &n);
+#endif
 	s[len] = '\n';
 	s[len + 1] = 0;
 	n++;		/* the newline is a character of the line */
@@ -47,10 +52,14 @@ void harness(void)
 		}
 	}
 	xorder = ORDER;
+#ifdef RTLCTX
+	xtd = -2;
+#else
 	if (ORDER) {
 		xtd = symx_conc(symx_u8("td") % 5) - 2;
 		xlim = symx_conc(symx_u8("lim") & 1) ? 256 : 1;
 	}
+#endif
 	symx_observe_mem("s", s, len + 2);
 	pos = ren_position(s);
 	total = pos[n];
